@@ -43,9 +43,22 @@ pub fn resolve_res(
     let res = defs.res_directives.get_mut(item_ref);
     let prev_value = res.reserve_size;
     
-    res.reserve_size =
-        <u32 as TryInto<usize>>::try_into(value).unwrap() *
-        bank.addr_unit;
+    res.reserve_size = {
+        match <u32 as TryInto<usize>>::try_into(value)
+            .ok()
+            .and_then(|v| v.checked_mul(bank.addr_unit))
+        {
+            Some(size) => size,
+            None =>
+            {
+                report.error_span(
+                    "value is out of supported range",
+                    ast_res.expr.span());
+
+                return Err(());
+            }
+        }
+    };
 
 
     if res.reserve_size != prev_value
